@@ -168,6 +168,16 @@ func genSpecCases(prop, tier, out string, sum *Summary, g *Gen, depth int) {
 			}
 		}
 	}
+	if prop == "C01" {
+		// a document that is a Go string is a JSON string, whatever its text looks like (JSON text, digits, blanks)
+		texts := []string{"[1, 2]", `{"a": 1}`, " [1]", "[]", "{}", "null", "12", "[1, 2", `"x"`, "true", `[{"a": [1]}]`, "[10]", ""}
+		for _, t := range texts {
+			for _, e := range []*R{cur(), idx(cur(), 0), fld("a"), proj(PList, cur(), cur()), proj(PFlatten, cur(), cur()), filt(cur(), cur(), cur()), slc(cur(), ip(1), ip(3), nil, cur()), proj(PValues, cur(), cur()),
+				cmp("==", cur(), litJ("[]")), call("length", av(cur())), call("type", av(cur())), mlist(cur()), pipe(cur(), idx(cur(), 0)), call("to_array", av(cur())), sub(mhash(KV{"d", cur()}), fld("d"))} {
+				fams = append(fams, fam{e, t}, fam{pipe(fld("d"), e), map[string]any{"d": t}})
+			}
+		}
+	}
 	// shadowing under projections and filters over arrays of every small length: the innermost binding wins
 	// whatever the number of elements
 	for _, n := range []int{0, 1, 2, 7, 8, 9, 16, 17, 33} {
